@@ -152,201 +152,6 @@ pub fn c10_time_timerid() {
     shape_timerid_0();
 }
 
-/// KeyValueOperation shape 0: KeyValueOperation::Get str[0]
-fn shape_keyvalueoperation_0() {
-    let mut w = W::new();
-    w.put(&[0, 0, 0, 0]); // KeyValueOperation::Get
-    w.put(&[0, 0, 0, 0, 0, 0, 0, 0]); // str[0]
-    roundtrip::<crux_kv::KeyValueOperation>(&w);
-    crate::nd_cover!(true, "KeyValueOperation: KeyValueOperation::Get str[0]");
-}
-/// KeyValueOperation shape 1: KeyValueOperation::Get str[1]
-fn shape_keyvalueoperation_1() {
-    let mut w = W::new();
-    w.put(&[0, 0, 0, 0]); // KeyValueOperation::Get
-    w.put(&[1, 0, 0, 0, 0, 0, 0, 0]); // str[1]
-    { let b = nd::any_u8(); nd::assume(b < 0x80); w.put(&[b]); }
-    roundtrip::<crux_kv::KeyValueOperation>(&w);
-    crate::nd_cover!(true, "KeyValueOperation: KeyValueOperation::Get str[1]");
-}
-/// KeyValueOperation shape 2: KeyValueOperation::Set str[0] bytes[0]
-fn shape_keyvalueoperation_2() {
-    let mut w = W::new();
-    w.put(&[1, 0, 0, 0]); // KeyValueOperation::Set
-    w.put(&[0, 0, 0, 0, 0, 0, 0, 0]); // str[0]
-    w.put(&[0, 0, 0, 0, 0, 0, 0, 0]); // bytes[0]
-    roundtrip::<crux_kv::KeyValueOperation>(&w);
-    crate::nd_cover!(true, "KeyValueOperation: KeyValueOperation::Set str[0] bytes[0]");
-}
-/// KeyValueOperation shape 3: KeyValueOperation::Set str[0] bytes[1]
-fn shape_keyvalueoperation_3() {
-    let mut w = W::new();
-    w.put(&[1, 0, 0, 0]); // KeyValueOperation::Set
-    w.put(&[0, 0, 0, 0, 0, 0, 0, 0]); // str[0]
-    w.put(&[1, 0, 0, 0, 0, 0, 0, 0]); // bytes[1]
-    w.put(&[nd::any_u8()]);
-    roundtrip::<crux_kv::KeyValueOperation>(&w);
-    crate::nd_cover!(true, "KeyValueOperation: KeyValueOperation::Set str[0] bytes[1]");
-}
-/// KeyValueOperation shape 4: KeyValueOperation::Set str[1] bytes[0]
-fn shape_keyvalueoperation_4() {
-    let mut w = W::new();
-    w.put(&[1, 0, 0, 0]); // KeyValueOperation::Set
-    w.put(&[1, 0, 0, 0, 0, 0, 0, 0]); // str[1]
-    { let b = nd::any_u8(); nd::assume(b < 0x80); w.put(&[b]); }
-    w.put(&[0, 0, 0, 0, 0, 0, 0, 0]); // bytes[0]
-    roundtrip::<crux_kv::KeyValueOperation>(&w);
-    crate::nd_cover!(true, "KeyValueOperation: KeyValueOperation::Set str[1] bytes[0]");
-}
-/// KeyValueOperation shape 5: KeyValueOperation::Set str[1] bytes[1]
-fn shape_keyvalueoperation_5() {
-    let mut w = W::new();
-    w.put(&[1, 0, 0, 0]); // KeyValueOperation::Set
-    w.put(&[1, 0, 0, 0, 0, 0, 0, 0]); // str[1]
-    { let b = nd::any_u8(); nd::assume(b < 0x80); w.put(&[b]); }
-    w.put(&[1, 0, 0, 0, 0, 0, 0, 0]); // bytes[1]
-    w.put(&[nd::any_u8()]);
-    roundtrip::<crux_kv::KeyValueOperation>(&w);
-    crate::nd_cover!(true, "KeyValueOperation: KeyValueOperation::Set str[1] bytes[1]");
-}
-/// KeyValueOperation shape 6: KeyValueOperation::Delete str[0]
-fn shape_keyvalueoperation_6() {
-    let mut w = W::new();
-    w.put(&[2, 0, 0, 0]); // KeyValueOperation::Delete
-    w.put(&[0, 0, 0, 0, 0, 0, 0, 0]); // str[0]
-    roundtrip::<crux_kv::KeyValueOperation>(&w);
-    crate::nd_cover!(true, "KeyValueOperation: KeyValueOperation::Delete str[0]");
-}
-/// KeyValueOperation shape 7: KeyValueOperation::Delete str[1]
-fn shape_keyvalueoperation_7() {
-    let mut w = W::new();
-    w.put(&[2, 0, 0, 0]); // KeyValueOperation::Delete
-    w.put(&[1, 0, 0, 0, 0, 0, 0, 0]); // str[1]
-    { let b = nd::any_u8(); nd::assume(b < 0x80); w.put(&[b]); }
-    roundtrip::<crux_kv::KeyValueOperation>(&w);
-    crate::nd_cover!(true, "KeyValueOperation: KeyValueOperation::Delete str[1]");
-}
-/// KeyValueOperation shape 8: KeyValueOperation::Exists str[0]
-fn shape_keyvalueoperation_8() {
-    let mut w = W::new();
-    w.put(&[3, 0, 0, 0]); // KeyValueOperation::Exists
-    w.put(&[0, 0, 0, 0, 0, 0, 0, 0]); // str[0]
-    roundtrip::<crux_kv::KeyValueOperation>(&w);
-    crate::nd_cover!(true, "KeyValueOperation: KeyValueOperation::Exists str[0]");
-}
-/// KeyValueOperation shape 9: KeyValueOperation::Exists str[1]
-fn shape_keyvalueoperation_9() {
-    let mut w = W::new();
-    w.put(&[3, 0, 0, 0]); // KeyValueOperation::Exists
-    w.put(&[1, 0, 0, 0, 0, 0, 0, 0]); // str[1]
-    { let b = nd::any_u8(); nd::assume(b < 0x80); w.put(&[b]); }
-    roundtrip::<crux_kv::KeyValueOperation>(&w);
-    crate::nd_cover!(true, "KeyValueOperation: KeyValueOperation::Exists str[1]");
-}
-/// KeyValueOperation shape 10: KeyValueOperation::ListKeys str[0]
-fn shape_keyvalueoperation_10() {
-    let mut w = W::new();
-    w.put(&[4, 0, 0, 0]); // KeyValueOperation::ListKeys
-    w.put(&[0, 0, 0, 0, 0, 0, 0, 0]); // str[0]
-    w.put(&nd::any_u64().to_le_bytes());
-    roundtrip::<crux_kv::KeyValueOperation>(&w);
-    crate::nd_cover!(true, "KeyValueOperation: KeyValueOperation::ListKeys str[0]");
-}
-/// KeyValueOperation shape 11: KeyValueOperation::ListKeys str[1]
-fn shape_keyvalueoperation_11() {
-    let mut w = W::new();
-    w.put(&[4, 0, 0, 0]); // KeyValueOperation::ListKeys
-    w.put(&[1, 0, 0, 0, 0, 0, 0, 0]); // str[1]
-    { let b = nd::any_u8(); nd::assume(b < 0x80); w.put(&[b]); }
-    w.put(&nd::any_u64().to_le_bytes());
-    roundtrip::<crux_kv::KeyValueOperation>(&w);
-    crate::nd_cover!(true, "KeyValueOperation: KeyValueOperation::ListKeys str[1]");
-}
-#[cfg_attr(kani, kani::proof, kani::unwind(50))]
-#[cfg_attr(kani, kani::stub(core::fmt::write, crate::fmt_write_nop))]
-pub fn c10_kv_keyvalueoperation_1() {
-    let v = nd::any_u32();
-    match v {
-        0 => shape_keyvalueoperation_0(),
-        1 => shape_keyvalueoperation_2(),
-        2 => shape_keyvalueoperation_3(),
-        3 => shape_keyvalueoperation_6(),
-        _ if v >= 5 => {
-            // an index the schema does not define must be rejected, not taken for some variant
-            let mut w = W::new();
-            w.put(&v.to_le_bytes());
-            w.put(&[0u8; 24]);
-            rejects::<crux_kv::KeyValueOperation>(&w);
-            crate::nd_cover!(true, "KeyValueOperation: undefined variant index rejected");
-        }
-        _ => nd::assume(false),
-    }
-}
-#[cfg_attr(kani, kani::proof, kani::unwind(50))]
-#[cfg_attr(kani, kani::stub(core::fmt::write, crate::fmt_write_nop))]
-pub fn c10_kv_keyvalueoperation_2() {
-    let v = nd::any_u32();
-    match v {
-        0 => shape_keyvalueoperation_8(),
-        1 => shape_keyvalueoperation_10(),
-        _ => nd::assume(false),
-    }
-}
-#[cfg_attr(kani, kani::proof, kani::unwind(50))]
-#[cfg_attr(kani, kani::stub(core::fmt::write, crate::fmt_write_nop))]
-pub fn c10_kv_keyvalueoperation_3() {
-    let v = nd::any_u32();
-    match v {
-        0 => shape_keyvalueoperation_1(),
-        _ => nd::assume(false),
-    }
-}
-#[cfg_attr(kani, kani::proof, kani::unwind(50))]
-#[cfg_attr(kani, kani::stub(core::fmt::write, crate::fmt_write_nop))]
-pub fn c10_kv_keyvalueoperation_4() {
-    let v = nd::any_u32();
-    match v {
-        0 => shape_keyvalueoperation_4(),
-        _ => nd::assume(false),
-    }
-}
-#[cfg_attr(kani, kani::proof, kani::unwind(50))]
-#[cfg_attr(kani, kani::stub(core::fmt::write, crate::fmt_write_nop))]
-pub fn c10_kv_keyvalueoperation_5() {
-    let v = nd::any_u32();
-    match v {
-        0 => shape_keyvalueoperation_5(),
-        _ => nd::assume(false),
-    }
-}
-#[cfg_attr(kani, kani::proof, kani::unwind(50))]
-#[cfg_attr(kani, kani::stub(core::fmt::write, crate::fmt_write_nop))]
-pub fn c10_kv_keyvalueoperation_6() {
-    let v = nd::any_u32();
-    match v {
-        0 => shape_keyvalueoperation_7(),
-        _ => nd::assume(false),
-    }
-}
-#[cfg_attr(kani, kani::proof, kani::unwind(50))]
-#[cfg_attr(kani, kani::stub(core::fmt::write, crate::fmt_write_nop))]
-pub fn c10_kv_keyvalueoperation_7() {
-    let v = nd::any_u32();
-    match v {
-        0 => shape_keyvalueoperation_9(),
-        _ => nd::assume(false),
-    }
-}
-#[cfg_attr(kani, kani::proof, kani::unwind(50))]
-#[cfg_attr(kani, kani::stub(core::fmt::write, crate::fmt_write_nop))]
-pub fn c10_kv_keyvalueoperation_8() {
-    let v = nd::any_u32();
-    match v {
-        0 => shape_keyvalueoperation_11(),
-        _ => nd::assume(false),
-    }
-}
-
 /// KeyValueResult shape 0: KeyValueResult::Ok KeyValueResponse::Get Value::None
 fn shape_keyvalueresult_0() {
     let mut w = W::new();
@@ -467,20 +272,8 @@ fn shape_keyvalueresult_11() {
     roundtrip::<crux_kv::KeyValueResult>(&w);
     crate::nd_cover!(true, "KeyValueResult: KeyValueResult::Ok KeyValueResponse::ListKeys seq[1] str[0]");
 }
-/// KeyValueResult shape 12: KeyValueResult::Ok KeyValueResponse::ListKeys seq[1] str[1]
+/// KeyValueResult shape 12: KeyValueResult::Err KeyValueError::io str[0]
 fn shape_keyvalueresult_12() {
-    let mut w = W::new();
-    w.put(&[0, 0, 0, 0]); // KeyValueResult::Ok
-    w.put(&[4, 0, 0, 0]); // KeyValueResponse::ListKeys
-    w.put(&[1, 0, 0, 0, 0, 0, 0, 0]); // seq[1]
-    w.put(&[1, 0, 0, 0, 0, 0, 0, 0]); // str[1]
-    { let b = nd::any_u8(); nd::assume(b < 0x80); w.put(&[b]); }
-    w.put(&nd::any_u64().to_le_bytes());
-    roundtrip::<crux_kv::KeyValueResult>(&w);
-    crate::nd_cover!(true, "KeyValueResult: KeyValueResult::Ok KeyValueResponse::ListKeys seq[1] str[1]");
-}
-/// KeyValueResult shape 13: KeyValueResult::Err KeyValueError::io str[0]
-fn shape_keyvalueresult_13() {
     let mut w = W::new();
     w.put(&[1, 0, 0, 0]); // KeyValueResult::Err
     w.put(&[0, 0, 0, 0]); // KeyValueError::io
@@ -488,50 +281,30 @@ fn shape_keyvalueresult_13() {
     roundtrip::<crux_kv::KeyValueResult>(&w);
     crate::nd_cover!(true, "KeyValueResult: KeyValueResult::Err KeyValueError::io str[0]");
 }
-/// KeyValueResult shape 14: KeyValueResult::Err KeyValueError::io str[1]
-fn shape_keyvalueresult_14() {
-    let mut w = W::new();
-    w.put(&[1, 0, 0, 0]); // KeyValueResult::Err
-    w.put(&[0, 0, 0, 0]); // KeyValueError::io
-    w.put(&[1, 0, 0, 0, 0, 0, 0, 0]); // str[1]
-    { let b = nd::any_u8(); nd::assume(b < 0x80); w.put(&[b]); }
-    roundtrip::<crux_kv::KeyValueResult>(&w);
-    crate::nd_cover!(true, "KeyValueResult: KeyValueResult::Err KeyValueError::io str[1]");
-}
-/// KeyValueResult shape 15: KeyValueResult::Err KeyValueError::timeout
-fn shape_keyvalueresult_15() {
+/// KeyValueResult shape 13: KeyValueResult::Err KeyValueError::timeout
+fn shape_keyvalueresult_13() {
     let mut w = W::new();
     w.put(&[1, 0, 0, 0]); // KeyValueResult::Err
     w.put(&[1, 0, 0, 0]); // KeyValueError::timeout
     roundtrip::<crux_kv::KeyValueResult>(&w);
     crate::nd_cover!(true, "KeyValueResult: KeyValueResult::Err KeyValueError::timeout");
 }
-/// KeyValueResult shape 16: KeyValueResult::Err KeyValueError::cursorNotFound
-fn shape_keyvalueresult_16() {
+/// KeyValueResult shape 14: KeyValueResult::Err KeyValueError::cursorNotFound
+fn shape_keyvalueresult_14() {
     let mut w = W::new();
     w.put(&[1, 0, 0, 0]); // KeyValueResult::Err
     w.put(&[2, 0, 0, 0]); // KeyValueError::cursorNotFound
     roundtrip::<crux_kv::KeyValueResult>(&w);
     crate::nd_cover!(true, "KeyValueResult: KeyValueResult::Err KeyValueError::cursorNotFound");
 }
-/// KeyValueResult shape 17: KeyValueResult::Err KeyValueError::other str[0]
-fn shape_keyvalueresult_17() {
+/// KeyValueResult shape 15: KeyValueResult::Err KeyValueError::other str[0]
+fn shape_keyvalueresult_15() {
     let mut w = W::new();
     w.put(&[1, 0, 0, 0]); // KeyValueResult::Err
     w.put(&[3, 0, 0, 0]); // KeyValueError::other
     w.put(&[0, 0, 0, 0, 0, 0, 0, 0]); // str[0]
     roundtrip::<crux_kv::KeyValueResult>(&w);
     crate::nd_cover!(true, "KeyValueResult: KeyValueResult::Err KeyValueError::other str[0]");
-}
-/// KeyValueResult shape 18: KeyValueResult::Err KeyValueError::other str[1]
-fn shape_keyvalueresult_18() {
-    let mut w = W::new();
-    w.put(&[1, 0, 0, 0]); // KeyValueResult::Err
-    w.put(&[3, 0, 0, 0]); // KeyValueError::other
-    w.put(&[1, 0, 0, 0, 0, 0, 0, 0]); // str[1]
-    { let b = nd::any_u8(); nd::assume(b < 0x80); w.put(&[b]); }
-    roundtrip::<crux_kv::KeyValueResult>(&w);
-    crate::nd_cover!(true, "KeyValueResult: KeyValueResult::Err KeyValueError::other str[1]");
 }
 #[cfg_attr(kani, kani::proof, kani::unwind(50))]
 #[cfg_attr(kani, kani::stub(core::fmt::write, crate::fmt_write_nop))]
@@ -542,14 +315,6 @@ pub fn c10_kv_keyvalueresult_1() {
         1 => shape_keyvalueresult_1(),
         2 => shape_keyvalueresult_2(),
         3 => shape_keyvalueresult_3(),
-        _ if v >= 4 => {
-            // an index the schema does not define must be rejected, not taken for some variant
-            let mut w = W::new();
-            w.put(&v.to_le_bytes());
-            w.put(&[0u8; 24]);
-            rejects::<crux_kv::KeyValueResult>(&w);
-            crate::nd_cover!(true, "KeyValueResult: undefined variant index rejected");
-        }
         _ => nd::assume(false),
     }
 }
@@ -582,39 +347,23 @@ pub fn c10_kv_keyvalueresult_3() {
 pub fn c10_kv_keyvalueresult_4() {
     let v = nd::any_u32();
     match v {
-        0 => shape_keyvalueresult_13(),
-        1 => shape_keyvalueresult_15(),
-        2 => shape_keyvalueresult_16(),
-        3 => shape_keyvalueresult_17(),
-        _ => nd::assume(false),
-    }
-}
-#[cfg_attr(kani, kani::proof, kani::unwind(50))]
-#[cfg_attr(kani, kani::stub(core::fmt::write, crate::fmt_write_nop))]
-pub fn c10_kv_keyvalueresult_5() {
-    let v = nd::any_u32();
-    match v {
         0 => shape_keyvalueresult_12(),
+        1 => shape_keyvalueresult_13(),
+        2 => shape_keyvalueresult_14(),
+        3 => shape_keyvalueresult_15(),
         _ => nd::assume(false),
     }
 }
 #[cfg_attr(kani, kani::proof, kani::unwind(50))]
 #[cfg_attr(kani, kani::stub(core::fmt::write, crate::fmt_write_nop))]
-pub fn c10_kv_keyvalueresult_6() {
+pub fn c10_kv_keyvalueresult_undefined() {
     let v = nd::any_u32();
-    match v {
-        0 => shape_keyvalueresult_14(),
-        _ => nd::assume(false),
-    }
-}
-#[cfg_attr(kani, kani::proof, kani::unwind(50))]
-#[cfg_attr(kani, kani::stub(core::fmt::write, crate::fmt_write_nop))]
-pub fn c10_kv_keyvalueresult_7() {
-    let v = nd::any_u32();
-    match v {
-        0 => shape_keyvalueresult_18(),
-        _ => nd::assume(false),
-    }
+    nd::assume(v >= 2);
+    let mut w = W::new();
+    w.put(&v.to_le_bytes());
+    w.put(&[0u8; 24]);
+    rejects::<crux_kv::KeyValueResult>(&w);
+    crate::nd_cover!(true, "KeyValueResult: undefined variant index rejected");
 }
 
 #[cfg(not(kani))]
@@ -624,19 +373,9 @@ pub const GENERATED_HARNESSES: &[(&str, fn())] = &[
     ("c10_time_instant", c10_time_instant),
     ("c10_time_duration", c10_time_duration),
     ("c10_time_timerid", c10_time_timerid),
-    ("c10_kv_keyvalueoperation_1", c10_kv_keyvalueoperation_1),
-    ("c10_kv_keyvalueoperation_2", c10_kv_keyvalueoperation_2),
-    ("c10_kv_keyvalueoperation_3", c10_kv_keyvalueoperation_3),
-    ("c10_kv_keyvalueoperation_4", c10_kv_keyvalueoperation_4),
-    ("c10_kv_keyvalueoperation_5", c10_kv_keyvalueoperation_5),
-    ("c10_kv_keyvalueoperation_6", c10_kv_keyvalueoperation_6),
-    ("c10_kv_keyvalueoperation_7", c10_kv_keyvalueoperation_7),
-    ("c10_kv_keyvalueoperation_8", c10_kv_keyvalueoperation_8),
     ("c10_kv_keyvalueresult_1", c10_kv_keyvalueresult_1),
     ("c10_kv_keyvalueresult_2", c10_kv_keyvalueresult_2),
     ("c10_kv_keyvalueresult_3", c10_kv_keyvalueresult_3),
     ("c10_kv_keyvalueresult_4", c10_kv_keyvalueresult_4),
-    ("c10_kv_keyvalueresult_5", c10_kv_keyvalueresult_5),
-    ("c10_kv_keyvalueresult_6", c10_kv_keyvalueresult_6),
-    ("c10_kv_keyvalueresult_7", c10_kv_keyvalueresult_7),
+    ("c10_kv_keyvalueresult_undefined", c10_kv_keyvalueresult_undefined),
 ];
